@@ -108,11 +108,7 @@ func (c *checkCtx) writeEvidence(bt *batch, xp *xprocResult, reports []report, v
 			"gomaxprocs": []int{1, 4, 16}},
 		"instrumentation": map[string]any{"tree_hash": c.Build.TreeHash, "sites": c.Build.Counts, "yield_sites_hit_max_per_process": siteSet,
 			"map_sites_executed": siteName(mapSeen), "map_sites_with_2plus_entries": siteName(mapMulti), "map_sites_uncontrolled": siteName(mapUnctl)},
-		"components": map[string]any{
-			"real":  []string{"cmd/go-critic program (flag parsing, parameter assignment, initCheckers, checkPackage, checkFile with goroutines/semaphore/barrier, printing)", "linter", "checkers (hand-written and embedded rule groups)", "checkers/internal/*", "go-ruleguard, gogrep, go-toolsmith/*, go/types, go/ast (uninstrumented)"},
-			"stub":  []string{"package loading inside the worker (go/packages run once per process; the CLI's loadProgram is replaced by the pre-loaded corpus)"},
-			"build": "overlay instrumentation of the current working tree; no source commit in /repo",
-		},
+		"components":      componentsFor(c.ID),
 		"workers":         bt.WorkersN,
 		"worker_restarts": bt.Restarts,
 		"ref_entries":     refComputed,
@@ -140,4 +136,31 @@ func (c *checkCtx) writeEvidence(bt *batch, xp *xprocResult, reports []report, v
 		fmt.Fprintln(os.Stderr, "gcsim: cannot write evidence:", err)
 	}
 	_ = simapi.RunResult{}
+}
+
+// componentsFor says, per property, which components ran real code and which a stub.
+func componentsFor(id string) map[string]any {
+	real := []string{"linter", "checkers (hand-written and embedded rule groups)", "checkers/internal/astwalk, lintutil",
+		"go-ruleguard, gogrep, go-toolsmith/*, go/types, go/ast (real, uninstrumented)"}
+	stub := []string{"package loading inside the worker: go/packages runs once per process; the corpus is pre-loaded"}
+	switch id {
+	case "C02", "C03", "C04":
+		real = append([]string{"cmd/go-critic program: flag parsing, parameter assignment, initCheckers, checkPackage, checkFile with its goroutines, semaphore and barrier, printing (only loadProgram's loader call is replaced)",
+			"checkers/analyzer: Analyzer.Run, prepareGocritic, newGocritic, createCheckers"}, real...)
+		stub = append(stub, "go/analysis driver: stub that starts one goroutine per package pass (what x/tools' checker does), Pass.Report collects per pass")
+		if id == "C02" {
+			real = append(real, "the shipped go-critic binary as real processes with the real package loader (cross-process leg)")
+		}
+	case "C05":
+		real = append([]string{"cmd/go-critic program under seeded schedules (switch-point fingerprints)", "linter.NewChecker / Checker.Check for every registered checker (frame sweeps)"}, real...)
+	case "C13":
+		real = append([]string{"the astwalk walkers and every selected checker over permuted declaration orders / re-parsed transformed sources", "go/parser and go/types for the in-memory re-check"}, real...)
+	case "C18":
+		real = append([]string{"newRuleguardChecker and ruleguardChecker.WalkFile", "go-ruleguard parser, DSL type-check, importer (against the real module cache) and engine"}, real...)
+		stub = append(stub, "the rule files' disk: os.ReadFile and filepath.Glob in go-critic are replaced by the simulated disk with its fault plan")
+	case "C19":
+		real = append([]string{"checkers/analyzer under a stub driver (a)", "the four shipped front-end binaries as real processes with real `go list` and type-checking (b)"}, real...)
+		stub = append(stub, "go/analysis driver in (a): stub starting passes sequentially or in parallel", "workspaces in (b): generated std-only modules with injected file faults")
+	}
+	return map[string]any{"real": real, "stub": stub, "build": "overlay instrumentation of the current working tree (go build -overlay -modfile); no source commit in /repo carries a hook"}
 }
